@@ -6,7 +6,7 @@ from props import dwtfam
 
 ID = 'C10'
 PROPS_MODULE = 'Props.C10'
-THEOREMS = ['C10_level_nonper_row', 'C10_level_per_row', 'C10_level_2d', 'C10_level_per_row_code', 'C10_per_short_refuted']
+THEOREMS = ['C10_level_nonper_row', 'C10_level_per_row', 'C10_level_2d', 'C10_level_2d_per', 'C10_level_per_row_code', 'C10_per_short_refuted']
 VO = ['theories/Props/C10.vo', 'theories/Run/RunDwt.vo', 'theories/Run/RunSpec.vo']
 RULE = ('correspondence A: full operator matrices of sfb1d (both dims, 5 modes, every n in the grid incl. outputs that would be empty), '
         'SFB1D/SFB2D, DWT1DInverse/DWTInverse on seeded integer pyramids incl. every None mask; correspondence B: syn / syn_per vs pywt.idwt; '
